@@ -377,6 +377,10 @@ type getCase struct {
 	revs      []rev
 	missing   []uint16
 	now       time.Time
+	// unshaped: some pool segment is not of the shape beaconing produces (a
+	// non-first AS entry without ingress interface; seg.Validate accepts it). The
+	// end points of combined paths are then not promised (spec assumption).
+	unshaped bool
 }
 
 func pickCores(r *vgen.Rand) []addr.IA {
@@ -445,9 +449,25 @@ func genGet(r *vgen.Rand, mutated bool) *getCase {
 	if mutated {
 		staleP = 3
 	}
+	zeroIngress := r.Chance(1, 10)
+	if zeroIngress {
+		// make sure 3-AS chains exist: demote one potential core per ISD
+		c.cores = []addr.IA{vgen.Pick(r, a110, a120), a210}
+		if c.insp != nil {
+			c.insp.cores = c.cores
+		}
+		c.local = vgen.Pick(r, a121, a112, a113, a111, a120, a110)
+		c.core = has(c.cores, c.local)
+		c.dst = vgen.Pick(r, a110, a120, a121, a112, a113, addr.MustIAFrom(1, 0), a211)
+	}
 	add := func(typ seg.Type, hops []hop) {
 		if !r.Chance(9, 10) {
 			return
+		}
+		if zeroIngress && r.Chance(1, 2) {
+			hops = append([]hop(nil), hops...)
+			hops[r.Range(1, len(hops)-1)].in = 0
+			c.unshaped = true
 		}
 		n := 1
 		if r.Chance(1, 3) {
@@ -540,7 +560,7 @@ func main() {
 		"destinations) on the real MultiSegmentSplitter; get: real Pather.GetPaths over a 10-AS/2-ISD topology with " +
 		"random core sets, a pool of real up/down/core segments (per-hop-field lifetimes: fresh, expired, or mixed with the clock between the minimum and maximum hop expiry incl. unused peer hop fields; margins >= 20 min), real combinator, " +
 		"real memrevcache with 0-4 active/expired revocations mostly on candidate-path interfaces, destinations " +
-		"(AS, ISD wildcard, local, ISD 0, unknown ISD), every 4th case mutated (wrong core flag, inspector view " +
+		"(AS, ISD wildcard, local, ISD 0, unknown ISD), 1 case in 10 with AS entries lacking an ingress interface (end points not promised, agreement only); every 4th case mutated (wrong core flag, inspector view " +
 		"differs, more expired segments/revocations, missing next hops); non-trivial = split grid point with " +
 		"inspector, or the combinator produced at least one candidate path"
 	rng := vgen.NewRand(run.Seed)
@@ -606,7 +626,14 @@ func main() {
 				RevCache: rc, Fetcher: &segfetcher.Fetcher{Resolver: rs}, Splitter: sp}, &memrevcacheT{rc}
 		}
 		dry, _ := mk(res, nil)
-		_, _ = dry.GetPaths(ctx, c.dst, false)
+		dryPanic, _ := vgen.Recover(func() { _, _ = dry.GetPaths(ctx, c.dst, false) })
+		if dryPanic && c.unshaped {
+			// combinator.Combine panics on an odd number of traversed interfaces, which
+			// an AS entry without ingress interface can cause: outside the assumptions
+			run.Tally("get:zero-ingress-combinator-panic")
+			run.Skip()
+			continue
+		}
 		var up, core, down []*seg.PathSegment
 		cands := map[addr.IA]bool{c.dst: true}
 		for _, s := range res.reply {
@@ -705,18 +732,24 @@ func main() {
 
 		insp := c.insp
 		env := vgen.App("mkenv", splitterT(c.local, c.core, insp), iaT(c.dst),
-			vgen.ListOf(c.pool, func(s *poolSeg) string {
-				return vgen.App("mkseg", vgen.N(uint64(s.typ)), iaT(s.first()), iaT(s.last()))
-			}),
+			func() string {
+				out := make([]string, len(c.pool))
+				for k, s := range c.pool {
+					out[k] = vgen.App("mkseg", vgen.N(uint64(s.typ)), iaT(s.first()), iaT(s.last()),
+						vgen.N(uint64(k)))
+				}
+				return vgen.List(out)
+			}(),
 			vgen.B(c.fetchFail),
 			vgen.ListOf(comb, func(row combRow) string {
 				return vgen.Pair(iaT(row.d), vgen.ListOf(row.ps, cpathT))
 			}),
 			vgen.ListOf(c.revs, func(rv rev) string { return vgen.Pair(ifT(rv.i), zT(rv.exp)) }),
-			vgen.ListOf(c.missing, func(m uint16) string { return vgen.N(uint64(m)) }))
+			vgen.ListOf(c.missing, func(m uint16) string { return vgen.N(uint64(m)) }),
+			vgen.ListOf(c.cores, iaT), vgen.B(!c.unshaped))
 		desc := map[string]any{"local": c.local.String(), "core_flag": c.core, "cores": fmt.Sprint(c.cores),
 			"inspector": fmt.Sprintf("%+v", c.insp), "dst": c.dst.String(), "pool": len(c.pool),
-			"fetch_fail": c.fetchFail, "revocations": fmt.Sprint(c.revs), "missing_nexthop": c.missing,
+			"fetch_fail": c.fetchFail, "zero_ingress_segment": c.unshaped, "revocations": fmt.Sprint(c.revs), "missing_nexthop": c.missing,
 			"candidates": ncand, "impl_reqs": fmt.Sprint(res2.reqs), "impl_err": fmt.Sprint(gerr),
 			"impl_paths": fmt.Sprint(got)}
 		id := run.Add("get", vgen.App("CGet", env, vgen.ListOf(sortedReqs(res2.reqs), reqT),
@@ -733,6 +766,9 @@ func main() {
 		run.Tally(fmt.Sprintf("get:paths=%s", bucket(len(got))))
 		run.Tally(fmt.Sprintf("get:candidates=%s", bucket(ncand)))
 		run.Tally(fmt.Sprintf("get:filtered=%v", ncand > len(got)))
+		if c.unshaped {
+			run.Tally("get:pool=zero-ingress")
+		}
 		if c.dst.AS() == 0 {
 			run.Tally("get:dst=wildcard")
 		} else if c.dst == c.local {
